@@ -23,6 +23,16 @@ class SemiringGen:
         return xs[int(self.rng.integers(len(xs)))]
 
     def leaf(self, names=None):
+        if names is None and getattr(self, "leaf_pool", None) and self.rng.random() < 0.15:
+            self.n_leaves += 1
+            return self.choice(self.leaf_pool)   # the very same operand object again (x * y * x)
+        t = self._leaf(names)
+        if not hasattr(self, "leaf_pool"):
+            self.leaf_pool = []
+        self.leaf_pool.append(t)
+        return t
+
+    def _leaf(self, names=None):
         if names is None:
             names = [n for n in NAMES if self.rng.random() < 0.45]
             self.rng.shuffle(names)
@@ -68,6 +78,11 @@ class SemiringGen:
         if depth <= 0 or self.n_leaves >= self.max_operands or self.rng.random() < 0.15:
             return self.leaf()
         r = self.rng.random()
+        if r < 0.06:
+            # the same operand object twice in one flat product: x * y * x
+            x = self.leaf()
+            y = self.expr(depth - 1)
+            return ("bin", self.prod_op, (), ("bin", self.prod_op, (), x, y), x) if self.rng.random() < 0.5 else ("bin", self.prod_op, (), x, ("bin", self.prod_op, (), y, x))
         if r < 0.4:
             k = int(self.rng.integers(2, 4))
             e = self.expr(depth - 1)
@@ -102,6 +117,7 @@ class SemiringGen:
     def program(self, depth):
         self.n_leaves = 0
         self.shared = []
+        self.leaf_pool = []
         return self.expr(depth)
 
 
